@@ -274,18 +274,49 @@ def register(M):
 
     def _re_fn(name):
         def f(interp, args, kw, node):
+            args = [a.pattern if isinstance(a, RePattern) else a for a in args]
             if not all(isinstance(a, (str, int)) for a in args):
+                if name == 'sub' and len(args) >= 3 and not isinstance(args[2], str):
+                    raise AbsRaise(ExcVal('TypeError', ('expected string or bytes-like object',)), node)
                 raise AnalysisError(f're.{name} on a non-concrete string', node)
             try:
                 r = getattr(_re, name)(*[str(a) if isinstance(a, ConfText) else a for a in args], **kw)
             except _re.error as e:
                 raise AbsRaise(ExcVal('ValueError', (f're.error: {e}',)), node)
+            if name != 'escape':
+                # every use of a regular expression is recorded: C19 analyses the patterns structurally
+                interp.event('regex', fn=name, pattern=str(args[0]), repl=(str(args[1]) if name in ('sub', 'subn') and len(args) > 1 else None), node=node)
             if name in ('match', 'search', 'fullmatch'):
                 return None if r is None else ReMatch(r)
             return r
         return f
     for nm in ('match', 'search', 'fullmatch', 'sub', 'split', 'findall', 'escape'):
         E['re.' + nm] = _re_fn(nm)
+
+    @ext('re.compile')
+    def _re_compile(interp, args, kw, node):
+        if not isinstance(args[0], str):
+            raise AnalysisError('re.compile of a non-constant pattern', node)
+        try:
+            _re.compile(args[0], *args[1:], **kw)
+        except _re.error as e:
+            raise AbsRaise(ExcVal('ValueError', (f're.error: {e}',)), node)
+        return RePattern(str(args[0]), args[1] if len(args) > 1 else kw.get('flags', 0), E)
+
+
+class RePattern:
+    """a compiled pattern: its methods are the module functions with the pattern as first argument"""
+    def __init__(self, pattern, flags, E):
+        self.pattern, self.flags, self.E = pattern, flags, E
+
+    def abs_getattr(self, interp, name, node):
+        if name == 'pattern':
+            return self.pattern
+        if name in ('match', 'search', 'fullmatch', 'sub', 'split', 'findall'):
+            fn = self.E['re.' + name]
+            extra = {'flags': self.flags} if self.flags else {}
+            return PyCallable(lambda it, a, k, n: fn(it, [self.pattern] + list(a), dict(k, **extra), n), name)
+        raise AnalysisError(f'compiled pattern attribute {name} not modelled', node)
 
 
 class ReMatch:
